@@ -603,6 +603,96 @@ def check_seg(ck, P, scratch, samples, tag, probes):
             out.append(r[:3] + ((ex[2], ex[1], ex[0]) if probes else (ex[1], ex[0])))
         return out
     P.add('c08_read', ['seg', fids], 'tabio seg reader', case, array_rows(back, names, kinds), conv_seg)
+    check_seg_ids(ck, P, d, samples, model_samples, probes, fnames, case)
+
+
+def first_appearance(names):
+    out = []
+    for x in names:
+        if x not in out:
+            out.append(x)
+    return out
+
+
+def check_seg_ids(ck, P, d, samples, model_samples, probes, fnames, case):
+    """export seg --enumerate-chroms -> import-seg -c <inverse map>: every sample comes back with its names.
+    model_samples: [sid, rows as read from the .cns (sorted)], i.e. what export_seg sees."""
+    from skgenome import tabio
+    from cnvlib import export, commands
+    from cnvlib.cmdutil import read_cna, write_dataframe
+    kinds = {'gene': 'str', 'log2': 'float', 'probes': 'int'}
+    first_rows = model_samples[0][1]
+    order = first_appearance([r[0] for r in first_rows])
+    inv = {str(i + 1): nm for i, nm in enumerate(order)}
+    cover = all(r[0] in order for sid, rows in model_samples for r in rows)
+    try:
+        seg_df = export.export_seg(fnames, chrom_ids=True)
+        segfile = os.path.join(d, 'ids-all.seg')
+        write_dataframe(segfile, seg_df)
+        fseg = file_fields(segfile)
+        ids_code = tabio.seg.create_chrom_ids(read_cna(fnames[0]).data)
+        parsed = [(sid, df) for sid, df in tabio.seg.parse_seg(segfile, chrom_names=dict(inv))]
+        outdir = os.path.join(d, 'imp-ids')
+        os.makedirs(outdir, exist_ok=True)
+        commands._cmd_import_seg(argparse.Namespace(segfile=segfile, chromosomes=','.join('%s:%s' % kv for kv in inv.items()),
+                                                    prefix=None, from_log10=False, output_dir=outdir))
+    except Exception as e:     # noqa
+        ck.violation('export seg (enumerated chromosomes) / import-seg -c raised %s: %s' % (type(e).__name__, str(e)[:120]), case,
+                     code=repr(e)[:200], expected='no error', clause='C08_roundtrip_seg_ids')
+        return
+    ck.count(['seg-ids-roundtrip', case['samples']], nontrivial=True,
+             cls='roundtrip:seg-ids:%s' % ('first-sample-covers' if cover else 'extra-chromosomes'))
+    # the written ids: i+1 for the i-th distinct name of the first sample
+    want_ids = {nm: i + 1 for i, nm in enumerate(order) if str(i + 1) != nm}
+    if dict(ids_code) != want_ids:
+        ck.violation('create_chrom_ids does not number the chromosomes in order of first appearance', case, code=dict(ids_code),
+                     expected=want_ids, clause='C08_seg_ids')
+        return
+    def seg_extras(rows):
+        return [[r[0], r[1], r[2], ([r[5]] if probes else []) + [r[4]]] for r in rows]
+    P.add('c08_seg_ids', [[r[0], r[1], r[2], []] for r in first_rows], 'create_chrom_ids and its inverse', case,
+          [[[k, str(v)] for k, v in ids_code.items()], [[k, v] for k, v in inv.items()]])
+    P.add('c08_write_seg', [probes, True, [[sid, seg_extras(rows)] for sid, rows in model_samples]],
+          'export_seg fields (enumerated chromosomes)', case, fseg)
+    code_parsed = []
+    for sid, df in parsed:
+        rows = []
+        for rec in df.itertuples(index=False):
+            dd = rec._asdict()
+            rows.append((dd['chromosome'], int(dd['start']), int(dd['end'])) +
+                        ((str(int(dd['probes'])),) if probes else ()) + (g6(dd['log2']), dd['gene']))
+        code_parsed.append([sid, rows])
+    pairs = [[k, v] for k, v in inv.items()]
+    P.add('c08_parse_seg_names', [pairs, '', fseg], 'parse_seg with the inverse name map', case, code_parsed,
+          lambda m: [[sid, from_mrows(rows)] for sid, rows in m])
+    imported = []
+    for sid, t in samples:
+        exp, names = expected_rows(t, 'seg')
+        try:
+            got = array_rows(read_cna(os.path.join(outdir, sid + '.cns')), names, kinds)
+        except Exception as e:    # noqa
+            ck.violation('reading the imported %s.cns (enumerated chromosomes) raised %s' % (sid, type(e).__name__), case,
+                         code=repr(e)[:200], expected=exp, clause='C08_roundtrip_seg_ids')
+            return
+        if cover:
+            msg = oracle_check(exp, got)
+            if msg:
+                ck.violation('export seg --enumerate-chroms -> import-seg -c, sample %s: %s' % (sid, msg), case, code=got,
+                             expected_rows_in_input_order=exp, seg_file=fseg[:8], name_map=inv, clause='C08_roundtrip_seg_ids')
+                return
+        imported.append([sid, [r[:3] + ((r[5],) if probes else ()) + (r[4], r[3]) for r in got]])
+    P.add('c08_import_seg_names', [pairs, '', fseg], 'import-seg -c + read back', case, imported,
+          lambda m: [[sid, from_mrows(rows)] for sid, rows in m])
+    # a prefix on top (import-seg -p): names come back with it
+    try:
+        pre = [(sid, df) for sid, df in tabio.seg.parse_seg(segfile, chrom_names=dict(inv), chrom_prefix='chr')]
+    except Exception as e:     # noqa
+        ck.violation('parse_seg with chrom_prefix raised %s' % type(e).__name__, case, code=repr(e)[:200], expected='no error',
+                     clause='C08_roundtrip_seg_ids')
+        return
+    code_pre = [[sid, [(c, int(s), int(e)) for c, s, e in zip(df['chromosome'], df['start'], df['end'])]] for sid, df in pre]
+    P.add('c08_parse_seg_names', [pairs, 'chr', fseg], 'parse_seg with name map and prefix', case, code_pre,
+          lambda m: [[sid, [r[:3] for r in from_mrows(rows)]] for sid, rows in m])
 
 
 def gen_seg_case(rng):
@@ -628,6 +718,19 @@ def gen_seg_case(rng):
         if all(float(r[j]) == int(float(r[j])) for r in t['rows'] if abs(float(r[j])) < 1e15):
             t['rows'][0][j] = 0.25
         samples.append((sid, t))
+    if len(samples) > 1 and rng.random() < 0.65:
+        # the enumeration of chromosomes is made from the first sample: let it cover the others
+        t0 = samples[0][1]
+        have = {r[0] for r in t0['rows']}
+        for sid, t in samples[1:]:
+            for r in t['rows']:
+                if r[0] not in have:
+                    have.add(r[0])
+                    s, e = gen_interval(rng)
+                    row = [r[0], s, e]
+                    for col in t0['cols']:
+                        row.append({'gene': 'x', 'log2': 0.125, 'probes': 3}[col])
+                    t0['rows'].insert(rng.randint(0, len(t0['rows'])), row)
     return samples, probes
 
 
@@ -686,9 +789,493 @@ def check_seg_raw(ck, P, scratch, rng, i):
 # readers of formats written by other tools: BED variants, interval header, text with labels,
 # GFF, VCF, Picard per-target
 
+def write_lines(p, lines):
+    with open(p, 'w') as fh:
+        for l in lines:
+            fh.write('\t'.join(l) + '\n')
+
+
+# ---- BED variants: 3..12 columns, header lines, labels ending in blanks, the generic writer
+
+def check_bed_file(ck, P, scratch, rng, i):
+    from skgenome import tabio
+    n = rng.randint(1, 8)
+    ncol = rng.choice([3, 4, 5, 6, 6, 7, 8, 9, 12])
+    fmt = rng.choice(['bed', 'bed', 'bed3', 'bed4'])
+    lines, exp = [], []
+    hdr = rng.random()
+    if hdr < 0.25:
+        lines.append(['browser position chr1:1-100'])
+    if 0.15 < hdr < 0.55:
+        lines.append([rng.choice(['track name=x description="y z"', 'track', 'track type=bedGraph name="a"', 'tracks are fun'])])
+    for _ in range(n):
+        c = gen_name(rng)
+        s, e = gen_interval(rng)
+        g = gen_gene(rng)
+        pad_g = rng.choice(['', '', '', ' ', '  ', ' \x0b'])
+        st = rng.choice(['+', '-', '.'])
+        pad_s = rng.choice(['', '', '', ' '])
+        full = [c, str(s), str(e), g + pad_g, str(rng.randint(0, 1000)), st + pad_s, str(s), str(e),
+                rng.choice(['0,0,0', '255,0,0', '0']), str(rng.randint(1, 3)), '10,20,', '0,30,']
+        lines.append(full[:ncol])
+        gene = g if ncol >= 4 else '-'              # str.rstrip() removes the padding
+        strand = st if ncol >= 6 else '.'
+        exp.append((c, s, e) + {'bed': (gene, strand), 'bed3': (), 'bed4': (gene,)}[fmt])
+    names = {'bed': ['gene', 'strand'], 'bed3': [], 'bed4': ['gene']}[fmt]
+    if rng.random() < 0.25:      # a second track: reading stops there
+        lines.append([rng.choice(['track name=second', 'track'])])
+        lines.append(['chr1', '5', '6', 'ignored', '0', '+'][:max(3, min(ncol, 6))])
+    p = os.path.join(scratch, 'bed%d.bed' % i)
+    write_lines(p, lines)
+    case = {'format': fmt, 'lines': lines}
+    try:
+        got = array_rows(tabio.read(p, fmt), names, {})
+    except Exception as e:    # noqa
+        ck.violation('reading a well-formed %d-column BED file as %s raised %s: %s' % (ncol, fmt, type(e).__name__, str(e)[:100]),
+                     case, code=repr(e)[:200], expected=exp, clause='C08_conventions_bed/C08_bed_columns')
+        return
+    ck.count(['read-bed', fmt, lines], nontrivial=True, cls='read:bed:%d-columns' % ncol)
+    msg = oracle_check(exp, got)
+    if msg:
+        ck.violation('%s reader on a %d-column BED file: %s' % (fmt, ncol, msg), case, code=got,
+                     expected_rows_in_input_order=exp, clause='C08_bed_columns/C08_bed_headers')
+        return
+    P.add('c08_read', [fmt, lines], '%s reader rows (%d columns)' % (fmt, ncol), case, got, from_mrows)
+    # detection (names of word characters only are claimed); a 5-column row can be an interval-list row
+    if all(all(ch.isalnum() or ch == '_' for ch in l[0]) for l in lines if len(l) >= 3):
+        try:
+            sn = tabio.sniff_region_format(p)
+        except ValueError:
+            sn = Err('unrecognized')
+        ck.cls('sniff:foreign-bed')
+        if sn != 'bed' and ncol != 5:
+            ck.violation('auto-detection classifies a %d-column BED file as %r' % (ncol, sn), case, code=sn, expected='bed',
+                         clause='C08_sniff')
+            return
+        P.add('c08_sniff', [None, lines], 'sniff_region_format on a BED file', case, sn)
+    os.remove(p)
+
+
+def check_bed_malformed(ck, P, scratch, rng, i):
+    """edge stream: lines read_bed rejects (comment lines, too few columns, non-numeric coordinates,
+    a second browser line): the code raises ValueError('Bad line'), the model answers parse error"""
+    from skgenome import tabio
+    good = ['chr1', '10', '20', 'g', '0', '+']
+    bad = rng.choice([['# comment'], ['chr1', '10'], ['chr1'], ['chr1', 'x', '20'], ['chr1', '10', '2e1'],
+                      ['browser position chr2:1-2'], ['chr1', '', '20'], ['chr1', '10', '20.0'], ['chr1', '1 0', '20']])
+    lines = [good[:rng.choice([3, 4, 6])] for _ in range(rng.randint(0, 2))]
+    lines.insert(rng.randint(0, len(lines)), bad)
+    if bad[0].startswith('browser') and lines[0] is bad:
+        lines.insert(0, ['browser position chr1:1-100'])
+    p = os.path.join(scratch, 'badbed%d.bed' % i)
+    write_lines(p, lines)
+    try:
+        code = array_rows(tabio.read(p, 'bed'), ['gene', 'strand'], {})
+    except ValueError:
+        code = Err('parse')
+    ck.count(['bad-bed', lines], nontrivial=isinstance(code, Err), cls='edge:bed-bad-line')
+    P.add('c08_read', ['bed', lines], 'read_bed on a file with a bad line', {'lines': lines}, code, from_mrows)
+    os.remove(p)
+
+
+def check_bed_writer(ck, P, scratch, rng, i):
+    """tabio.write(fmt='bed'): every column written; read back as bed: name = column 4, strand = column 6"""
+    from skgenome import tabio
+    shape = rng.choice(['bed3', 'bed4', 'bed6', 'bed6', 'other'])
+    t = gen_table(rng, maxrows=8)
+    rows = []
+    for r in t['rows']:
+        c, s, e = r[:3]
+        g, st = gen_gene(rng), rng.choice(['+', '-', '.'])
+        if shape == 'bed3':
+            rows.append([c, s, e])
+        elif shape == 'bed4':
+            rows.append([c, s, e, g])
+        elif shape == 'bed6':
+            rows.append([c, s, e, g, rng.randint(0, 1000), st])
+        else:
+            rows.append([c, s, e, g, st, rng.randint(0, 9), rng.choice(['x', 'y.z'])])
+    cols = {'bed3': [], 'bed4': ['gene'], 'bed6': ['gene', 'score', 'strand'], 'other': ['gene', 'strand', 'n', 'tag']}[shape]
+    table = {'cols': cols, 'kinds': {c: ('int' if c in ('score', 'n') else 'str') for c in cols}, 'rows': rows}
+    case = {'table': table, 'fmt': 'bed', 'shape': shape}
+    p = os.path.join(scratch, 'wbed%d.bed' % i)
+    try:
+        tabio.write(make_array(table), p, 'bed')
+        f1 = file_fields(p)
+        got = array_rows(tabio.read(p, 'bed'), ['gene', 'strand'], {})
+    except Exception as e:   # noqa
+        ck.violation('write/read as bed raised %s: %s' % (type(e).__name__, str(e)[:100]), case, code=repr(e)[:200],
+                     expected='no error', clause='C08_roundtrip_bed')
+        return
+    ck.count(['write-bed', table], nontrivial=len(rows) > 1, cls='roundtrip:bed:%s' % shape)
+    exp = []
+    for r in rows:
+        ex = [str(x) for x in r[3:]]
+        exp.append((r[0], r[1], r[2], ex[0] if len(ex) >= 1 else '-', ex[2] if len(ex) >= 3 else '.'))
+    msg = oracle_check(exp, got)
+    if msg:
+        ck.violation('generic BED writer/reader (%s): %s' % (shape, msg), case, code=got, expected_rows_in_input_order=exp,
+                     file=f1[:6], clause='C08_roundtrip_bed/C08_roundtrip_bed6')
+        return
+    P.add('c08_write_bed', [[r[0], r[1], r[2], [str(x) for x in r[3:]]] for r in rows], 'generic BED writer fields', case, f1)
+    P.add('c08_read', ['bed', f1], 'read_bed on the generic writer\'s file', case, got, from_mrows)
+    os.remove(p)
+
+
+# ---- GFF: gene label from the attribute column, type filter, pre-sort
+
+GFF_KEYS = ['ID', 'Parent', 'Name', 'gene_id', 'gene_name', 'gene', 'transcript_id', 'biotype', 'Note', 'Alias']
+GFF_TAGS = [(None, None), (None, None), (None, None), ('ID', ['ID']), ('Parent', ['Parent']),
+            ('(gene_name|gene_id)', ['gene_name', 'gene_id']), ('gene_name', ['gene_name']), ('(Alias|Name)', ['Alias', 'Name'])]
+GFF_ODD = ['Name="AB C";gene=zz', 'Name=;x;', 'ID=x;my_gene=Y', 'Name="', 'Name=ab"c;d', 'Name="q"x;Name=zz', 'Name= x;gene=kk',
+           '', 'Name=', 'Name', 'gene', 'gene=', 'gene =x', 'gene  x', 'Name=x ;ID=2', 'Name="x";', 'Name=x";', 'Name="x',
+           'xName=y', 'Name=a;Name=b', 'gene_id=1;gene=2', 'gene=2;gene_id=1', 'NAME=x', 'Name="";gene=q', 'Name=""', 'Name=";"',
+           ';Name=z', 'Name=x;;', 'gene_name "A B"; gene_id "C"', 'gene_id "";gene_name "x"', 'Name=\x0bq', 'Name=x\x0b']
+
+
+def gen_gff_value(rng):
+    if rng.random() < 0.6:
+        v = gen_gene(rng)
+    else:
+        v = ''.join(rng.choice('ABCxyz0189,.-_:|/') for _ in range(rng.randint(1, 10)))
+    return v.replace('"', '').replace(';', '').replace(' ', '').replace('=', '') or 'v'
+
+
+def gen_gff_attr(rng):
+    """-> (attribute text, [(key, value)] in order) for the structured styles; (text, None) for odd ones"""
+    r = rng.random()
+    if r < 0.12:
+        return rng.choice(GFF_ODD), None
+    k = rng.randint(0, 4)
+    keys = rng.sample(GFF_KEYS, k)
+    if rng.random() < 0.3 and keys:
+        keys.append(rng.choice(keys))            # the same key twice: the first wins
+    pairs = [(key, gen_gff_value(rng)) for key in keys]
+    style = rng.choice(['gff3', 'gff3', 'gtf', 'gff3q', 'mixed'])
+    parts = []
+    for key, v in pairs:
+        s = style if style != 'mixed' else rng.choice(['gff3', 'gtf', 'gff3q'])
+        parts.append({'gff3': '%s=%s', 'gtf': '%s "%s"', 'gff3q': '%s="%s"'}[s] % (key, v))
+    sep = '; ' if style == 'gtf' else rng.choice([';', ';', '; '])
+    text = sep.join(parts)
+    if parts and (style == 'gtf' or rng.random() < 0.2):
+        text += ';'
+    return text, pairs
+
+
+def check_gff_file(ck, P, scratch, rng, i):
+    from skgenome import tabio
+    n = rng.randint(1, 9)
+    tag_src, tag_list = rng.choice(GFF_TAGS)
+    types = ['gene', 'exon', 'CDS', 'mRNA']
+    keep = rng.choice([None, None, 'exon', 'gene', 'CDS', 'tRNA', ''])
+    tags = tag_list or DEFAULT_GFF_TAGS
+    lines = []
+    if rng.random() < 0.5:
+        lines.append(['##gff-version 3'])
+    rows, structured = [], True
+    chroms = [gen_name(rng) for _ in range(rng.randint(1, 3))]
+    if rng.random() < 0.45:
+        c0 = rng.choice(chroms)
+        chroms.append(c0[3:] if c0.lower().startswith('chr') and len(c0) > 3 else 'chr' + c0)
+    for _ in range(n):
+        if rows and rng.random() < 0.3:
+            c, s, e = rng.choice(rows)[:3]         # same region again (gene / mRNA / exon on one span)
+            if rng.random() < 0.5:                 # ... spelled with / without the prefix: the pre-sort by name decides
+                alt_c = c[3:] if c.lower().startswith('chr') and len(c) > 3 else 'chr' + c
+                if alt_c in chroms:
+                    c = alt_c
+        else:
+            c = rng.choice(chroms)
+            s, e = gen_interval(rng)
+        ty = rng.choice(types)
+        st = rng.choice('+-.?')
+        attr, pairs = gen_gff_attr(rng)
+        if pairs is None:
+            structured = False
+            gene = None
+        else:
+            gene = next((v for k, v in pairs if k in tags), '-')
+            if tag_list:                       # alternatives are tried in order at one position only; the
+                pass                           # leftmost position wins, so the first pair with a listed key
+        lines.append([c, rng.choice(['src', 'HAVANA', '.']), ty, str(s + 1), str(e), rng.choice(['.', '.', '0.5', '12', '1e-5']),
+                      st, rng.choice('012.'), attr])
+        rows.append((c, s, e, gene, st, ty))
+        if rng.random() < 0.1:
+            lines.append(['# a comment line'])
+    p = os.path.join(scratch, 'gff%d.gff' % i)
+    write_lines(p, lines)
+    kw = {}
+    if tag_src is not None:
+        kw['tag'] = tag_src
+    if keep is not None:
+        kw['keep_type'] = keep
+    case = {'format': 'gff', 'lines': lines, 'tag': tag_src, 'keep_type': keep}
+    try:
+        arr = tabio.read(p, 'gff', **kw)
+        got = array_rows(arr, ['gene', 'strand', 'type'], {})
+    except Exception as e:    # noqa
+        ck.violation('reading a well-formed GFF file raised %s: %s' % (type(e).__name__, str(e)[:100]), case,
+                     code=repr(e)[:200], expected=rows, clause='C08_conventions_gff')
+        return
+    ck.count(['read-gff', lines, tag_src, keep], nontrivial=True,
+             cls='read:gff:%s%s' % ('structured' if structured else 'odd-attributes', ':keep_type' if keep else ''))
+    kept = [r for r in rows if not keep or r[5] == keep]
+    if structured:
+        msg = oracle_check(kept, got)
+        what = 'coordinates / gene label (value of the first matching tag) / strand / type'
+    else:
+        msg = oracle_check([r[:3] + r[4:] for r in kept], [g[:3] + g[4:] for g in got])
+        what = 'coordinates / strand / type'
+    if msg:
+        ck.violation('gff reader (%s): %s' % (what, msg), case, code=got, expected_rows_in_input_order=kept,
+                     clause='C08_conventions_gff/C08_gff_gene/C08_gff_table')
+        return
+    P.add('c08_read_gff', [list(tags), keep, lines], 'gff reader rows (gene, strand, type)', case, got, from_mrows)
+    if tag_src is None and not keep:
+        P.add('c08_read', ['gff', lines], 'gff reader regions', case, [g[:3] for g in got], lambda m: [tuple(x) for x in m])
+    if all(all(ch.isalnum() or ch == '_' for ch in r[0]) for r in rows):
+        try:
+            sn = tabio.sniff_region_format(p)
+        except ValueError:
+            sn = Err('unrecognized')
+        ck.cls('sniff:foreign-gff')
+        if sn != 'gff':
+            ck.violation('auto-detection classifies a gff file as %r' % (sn,), case, code=sn, expected='gff', clause='C08_sniff')
+            return
+        P.add('c08_sniff', [None, lines], 'sniff_region_format on a gff file', case, sn)
+    os.remove(p)
+
+
+def check_gff_genes(ck, P, rng, n):
+    """the extraction alone: attribute text -> label, code's regex vs the model's matcher"""
+    import re
+    import pandas as pd
+    texts = [c['text'] for c in load_corpus_extra('gff_attributes')] + list(GFF_ODD)
+    for _ in range(n):
+        t, _p = gen_gff_attr(rng)
+        if rng.random() < 0.4 and t:
+            k = rng.randint(0, len(t))
+            t = t[:k] + rng.choice(['"', ';', ' ', '=', 'gene', 'Name=', 'x', '""', ' "']) + t[k + rng.randint(0, 1):]
+        texts.append(t)
+    for t in texts:
+        tag_src, tag_list = rng.choice(GFF_TAGS)
+        tags = tag_list or DEFAULT_GFF_TAGS
+        src = tag_src or '(' + '|'.join(DEFAULT_GFF_TAGS) + ')'
+        rx = re.compile(src + GFF_GENE_TAIL)
+        m = pd.Series([t], dtype='str').str.extract(rx, expand=True)['gene'].fillna('-').astype('str').tolist()[0]
+        ck.count(['gff-gene', t, src], nontrivial=m != '-', cls='gff:gene-extraction')
+        P.add('c08_gff_gene', [list(tags), t], 'gene label of a GFF attribute column', {'attribute': t, 'tag': src}, m)
+
+
+DEFAULT_GFF_TAGS = ['Name', 'gene_id', 'gene_name', 'gene']
+GFF_GENE_TAIL = r'[= ]"?(?P<gene>\S+?)"?(;|$)'
+
+
+# ---- VCF: starts and ends of the three readers
+
+VCF_HEADER = ['##fileformat=VCFv4.2',
+              '##INFO=<ID=END,Number=1,Type=Integer,Description="End position">',
+              '##INFO=<ID=CIEND,Number=2,Type=Integer,Description="ci">',
+              '##INFO=<ID=SVTYPE,Number=1,Type=String,Description="type">',
+              '##INFO=<ID=DP,Number=1,Type=Integer,Description="depth">',
+              '##ALT=<ID=DEL,Description="Deletion">', '##ALT=<ID=DUP,Description="Duplication">',
+              '##ALT=<ID=NON_REF,Description="any">']
+
+
+def check_vcf_file(ck, P, scratch, rng, i):
+    from skgenome import tabio
+    kind = rng.choice(['vcf-simple', 'vcf-sites', 'vcf'])
+    n = rng.randint(1, 8)
+    chroms = [gen_name(rng, word_only=True) for _ in range(rng.randint(1, 3))]
+    lines = [[h] for h in VCF_HEADER] + [['##contig=<ID=%s>' % c] for c in sorted(set(chroms))]
+    lines.append(['#CHROM', 'POS', 'ID', 'REF', 'ALT', 'QUAL', 'FILTER', 'INFO'])
+    recs = []
+    for _ in range(n):
+        c = rng.choice(chroms)
+        pos = rng.choice([1, 2, 10, 99, 100, 1000]) if rng.random() < 0.4 else rng.randint(1, 250000000)
+        ref = ''.join(rng.choice('ACGT') for _ in range(rng.choice([1, 1, 1, 2, 3, 5])))
+        a = rng.random()
+        if a < 0.45:
+            alts = [rng.choice([x for x in 'ACGT' if x != ref[0]]) + ''.join(rng.choice('ACGT') for _ in range(rng.choice([0, 0, 0, 1, 3])))]
+        elif a < 0.65:
+            alts = [rng.choice('ACGT') * rng.randint(1, 4), rng.choice('ACGT') + 'T' * rng.randint(0, 2)]
+            if alts[0] == alts[1] or ref in alts:
+                alts = [ref[0] + 'GG', ref[0] + 'C']
+        elif a < 0.8:
+            alts = [rng.choice(['<DEL>', '<DUP>'])]
+        elif a < 0.9:
+            alts = [rng.choice('ACGT'), '<NON_REF>'] if rng.random() < 0.6 else ['<NON_REF>']
+            if alts[0] == ref:
+                alts[0] = ref + 'A'
+        else:
+            alts = []
+        end = pos + len(ref) - 1 + rng.randint(0, 5000)
+        info = rng.choice(['.', '.', 'DP=10', 'END=%d' % end, 'SVTYPE=DEL;END=%d' % end, 'DP=7;END=%d;CIEND=-5,5' % end,
+                           'SVTYPE=DUP;END=%d;DP=3' % end])
+        if alts and alts[0].startswith('<D') and 'END' not in info:
+            info = 'SVTYPE=%s;END=%d' % (alts[0][1:4], end)
+        lines.append([c, str(pos), '.', ref, ','.join(alts) if alts else '.', '.', 'PASS', info])
+        recs.append((c, pos, ref, alts, info))
+    p = os.path.join(scratch, 'v%d.vcf' % i)
+    write_lines(p, lines)
+    case = {'format': kind, 'lines': lines}
+    try:
+        arr = tabio.read(p, kind)
+        got = [(c, int(s), int(e), r, a) for c, s, e, r, a in
+               zip(arr.data['chromosome'], arr.data['start'], arr.data['end'], arr.data['ref'], arr.data['alt'])]
+    except Exception as e:    # noqa
+        ck.violation('reading a well-formed VCF file as %s raised %s: %s' % (kind, type(e).__name__, str(e)[:100]), case,
+                     code=repr(e)[:200], expected='records', clause='C08_conventions_vcf')
+        return
+    ck.count(['read-vcf', kind, lines], nontrivial=True, cls='read:%s' % kind)
+    # direct oracle: the property fixes the start (POS - 1) and the order
+    if kind == 'vcf':
+        exp_starts = sorted((c, pos - 1) for c, pos, ref, alts, info in recs for a in alts if a != '<NON_REF>')
+    else:
+        exp_starts = sorted((c, pos - 1) for c, pos, ref, alts, info in recs)
+    bad = sorted((g[0], g[1]) for g in got) != exp_starts
+    if not bad:
+        for a, b in zip(got, got[1:]):
+            cmpv = nat_cmp(a[0], b[0])
+            if cmpv is not None and (cmpv > 0 or (cmpv == 0 and (a[1], a[2]) > (b[1], b[2]))):
+                bad = True
+    if bad:
+        ck.violation('%s reader: 0-based starts / order differ from the file' % kind, case, code=got, expected=exp_starts,
+                     clause='C08_conventions_vcf/C08_sorted')
+        return
+    conv = lambda m: [r[:3] + (r[3], r[4]) for r in from_mrows(m)]     # noqa
+    if kind == 'vcf':
+        import pysam
+        ends = []
+        with pysam.VariantFile(p) as vf:
+            for rec in vf:
+                ends.append(int(rec.info['END']) if 'END' in rec.info else None)
+        data = [l for l in lines if not l[0].startswith('#')]
+        if len(ends) != len(data):
+            raise RuntimeError('pysam returned %d records for %d data lines' % (len(ends), len(data)))
+        ck.extra.setdefault('pysam_info_contains_END', {}).setdefault(str(any(e is not None for e in ends)), 0)
+        ck.extra['pysam_info_contains_END'][str(any(e is not None for e in ends))] += 1
+        P.add('c08_read_vcfio', [[e, l] for e, l in zip(ends, data)], 'vcf (pysam) reader rows: start, end, ref, alt', case, got, conv)
+    else:
+        P.add('c08_read2', [kind, lines], '%s reader rows: start, end, ref, alt' % kind, case, got, conv)
+        P.add('c08_read', [kind, lines], '%s reader starts' % kind, case, sorted((g[0], g[1]) for g in got),
+              lambda m: sorted(tuple(x) for x in m))
+    try:
+        sn = tabio.sniff_region_format(p)
+    except ValueError:
+        sn = Err('unrecognized')
+    ck.cls('sniff:foreign-%s' % kind)
+    if sn != 'vcf':
+        ck.violation('auto-detection classifies a VCF file as %r' % (sn,), case, code=sn, expected='vcf', clause='C08_sniff')
+        return
+    P.add('c08_sniff', [None, lines], 'sniff_region_format on a VCF file', case, sn)
+    os.remove(p)
+
+
+def check_vcf_ends(ck, P, rng, n):
+    """parse_end_from_info + set_ends on single records, incl. the INFO strings int() rejects"""
+    import pandas as pd
+    from skgenome.tabio import vcfsimple
+    infos = ['.', '', 'END=5', 'END=5;', 'DP=1;END=77', 'END=77;DP=1', 'CIEND=-5,5;END=500', 'SVTYPE=DEL;END=500;CIEND=-5,5',
+             'END=', 'END=;', 'END=x', 'END=-1', 'END=-7', 'END=007', 'XEND=9', 'END=3;END=4', 'end=5', 'END', 'DP=2;END', 'END=1e3']
+    fixed = [(c['start'], c['ref'], c['alt'], c['info']) for c in load_corpus_extra('vcf_records')]
+    for k in range(n + len(fixed)):
+        if k < len(fixed):
+            start, ref, alt, info = fixed[k]
+        else:
+            info = rng.choice(infos)
+            if rng.random() < 0.3:
+                j = rng.randint(0, len(info))
+                info = info[:j] + rng.choice(['E', ';', '=', '1', 'END=', '-']) + info[j:]
+            ref = 'ACGTA'[:rng.randint(1, 5)]
+            alt = rng.choice(['A', 'AC', 'ACGTAC', 'A,CCCC', '<DEL>', '.'])
+            start = rng.choice([0, 9, 99, 12345])
+        try:
+            e = vcfsimple.parse_end_from_info(info)
+            tbl = pd.DataFrame({'start': [start], 'end': [e], 'ref': [ref], 'alt': [alt]})
+            vcfsimple.set_ends(tbl)
+            code = int(tbl['end'].iloc[0])
+        except ValueError:
+            code = Err('int')
+        ck.count(['vcf-end', start, ref, alt, info], nontrivial=not isinstance(code, Err), cls='vcf:simple-end')
+        P.add('c08_vcf_simple_end', [start, ref, alt, info], 'parse_end_from_info + set_ends',
+              {'start': start, 'ref': ref, 'alt': alt, 'info': info}, code)
+
+
+# ---- Picard per-target table, every column
+
+def check_picard_file(ck, P, scratch, rng, i):
+    from skgenome import tabio
+    n = rng.randint(1, 8)
+    lines = [['chrom', 'start', 'end', 'length', 'name', '%gc', 'mean_coverage', 'normalized_coverage']]
+    exp = []
+    for _ in range(n):
+        c = gen_name(rng)
+        s, e = gen_interval(rng)
+        g = gen_gene(rng)
+        gc, cov, norm = g6(rng.random()), g6(abs(gen_float(rng))), g6(abs(rng.uniform(0, 3)))
+        lines.append([c, str(s + 1), str(e), str(e - s), g, gc, cov, norm])
+        exp.append((c, s, e, g, g6(float(gc)), g6(float(cov)), g6(float(norm))))
+    p = os.path.join(scratch, 'hs%d.dat' % i)
+    write_lines(p, lines)
+    case = {'format': 'picardhs', 'lines': lines}
+    names = ['gene', 'gc', 'depth', 'ratio']
+    try:
+        arr = tabio.read(p, 'picardhs')
+        got = array_rows(arr, names, {'gc': 'float', 'depth': 'float', 'ratio': 'float'})
+    except Exception as e:    # noqa
+        ck.violation('reading a well-formed Picard per-target table raised %s: %s' % (type(e).__name__, str(e)[:100]), case,
+                     code=repr(e)[:200], expected=exp, clause='C08_conventions_picard')
+        return
+    ck.count(['read-picardhs', lines], nontrivial=True, cls='read:picardhs')
+    msg = oracle_check(exp, got)
+    if msg:
+        ck.violation('picardhs reader: %s' % msg, case, code=got, expected_rows_in_input_order=exp, clause='C08_conventions_picard')
+        return
+    if 'length' in arr.data.columns:
+        ck.violation('picardhs reader kept the length column', case, code=list(arr.data.columns), expected='no length column',
+                     clause='C08_conventions_picard')
+        return
+    P.add('c08_read2', ['picardhs', lines], 'picardhs reader rows (all columns)', case, got,
+          lambda m: [r[:4] + tuple(g6(float(x)) for x in r[4:]) for r in from_mrows(m)])
+    P.add('c08_read', ['picardhs', lines], 'picardhs reader rows', case, [g[:4] for g in got], from_mrows)
+    # writer: coordinates 1-based, length = end - start, name
+    p2 = p + '.2'
+    try:
+        tabio.write(arr, p2, 'picardhs')
+        f2 = file_fields(p2)
+    except Exception as e:    # noqa
+        ck.violation('writing a Picard per-target table raised %s' % type(e).__name__, case, code=repr(e)[:200], expected='no error',
+                     clause='C08_roundtrip_picardhs')
+        return
+    want = [[g[0], str(g[1] + 1), str(g[2]), str(g[2] - g[1]), g[3]] for g in got]
+    if [l[:5] for l in f2[1:]] != want or f2[0] != lines[0]:
+        ck.violation('picardhs writer: header / 1-based start / length / name differ', case, code=f2[:6], expected=[lines[0]] + want[:5],
+                     clause='C08_roundtrip_picardhs')
+        return
+    P.add('c08_write', ['picardhs', [], [[g[0], g[1], g[2], [g[3]]] for g in got]], 'picardhs writer coordinate fields', case,
+          [l[:5] for l in f2[1:]])
+    os.remove(p)
+    os.remove(p2)
+
+
 def check_readers(ck, P, scratch, rng, i):
     from skgenome import tabio
-    kind = rng.choice(['bed', 'bed', 'interval', 'text', 'gff', 'vcf-simple', 'vcf-sites', 'picardhs', 'vcf'])
+    kind = rng.choice(['bed', 'bed', 'interval', 'text', 'gff', 'gff', 'vcf-simple', 'vcf-sites', 'picardhs', 'vcf', 'bed-writer',
+                       'bed-bad'])
+    if kind == 'bed':
+        return check_bed_file(ck, P, scratch, rng, i)
+    if kind == 'bed-bad':
+        return check_bed_malformed(ck, P, scratch, rng, i)
+    if kind == 'bed-writer':
+        return check_bed_writer(ck, P, scratch, rng, i)
+    if kind == 'gff':
+        return check_gff_file(ck, P, scratch, rng, i)
+    if kind.startswith('vcf'):
+        return check_vcf_file(ck, P, scratch, rng, i)
+    if kind == 'picardhs':
+        return check_picard_file(ck, P, scratch, rng, i)
     n = rng.randint(1, 8)
     regs = []
     for _ in range(n):
@@ -696,28 +1283,8 @@ def check_readers(ck, P, scratch, rng, i):
         s, e = gen_interval(rng)
         regs.append((c, s, e, gen_gene(rng)))
     lines, exp = [], []
-    off = 0 if kind == 'bed' else 1
-    names = []
     fmt = kind
-    if kind == 'bed':
-        ncol = rng.choice([3, 4, 5, 6, 7, 9])
-        fmt = rng.choice(['bed', 'bed3', 'bed4'])
-        if rng.random() < 0.3:
-            lines.append(['browser position chr1:1-100'])
-        if rng.random() < 0.4:
-            lines.append(['track name=x description="y z"'])
-        for (c, s, e, g) in regs:
-            st = rng.choice(['+', '-', '.'])
-            full = [c, str(s), str(e), g, str(rng.randint(0, 1000)), st, str(s), str(e), '0,0,0']
-            lines.append(full[:ncol])
-            gene = g if ncol >= 4 else '-'
-            strand = st if ncol >= 6 else '.'
-            exp.append((c, s, e) + {'bed': (gene, strand), 'bed3': (), 'bed4': (gene,)}[fmt])
-        names = {'bed': ['gene', 'strand'], 'bed3': [], 'bed4': ['gene']}[fmt]
-        if rng.random() < 0.2:      # a second track: reading stops there
-            lines.append(['track name=second'])
-            lines.append(['chr1', '5', '6', 'ignored'][:max(3, min(ncol, 4))])
-    elif kind == 'interval':
+    if kind == 'interval':
         if rng.random() < 0.7:
             lines.append(['@HD', 'VN:1.4', 'SO:unsorted'])
             lines.append(['@SQ', 'SN:chr1', 'LN:249250621'])
@@ -726,7 +1293,7 @@ def check_readers(ck, P, scratch, rng, i):
             lines.append([c, str(s + 1), str(e), st, g])
             exp.append((c, s, e, g, st))
         names = ['gene', 'strand']
-    elif kind == 'text':
+    else:
         for (c, s, e, g) in regs:
             m = rng.random()
             if m < 0.4:
@@ -739,79 +1306,30 @@ def check_readers(ck, P, scratch, rng, i):
                 lines.append(['%s:%d-%d' % (c, s + 1, e), g])     # tab before the label
                 exp.append((c, s, e, g))
         names = ['gene']
-    elif kind == 'gff':
-        if rng.random() < 0.5:
-            lines.append(['##gff-version 3'])
-        for (c, s, e, g) in regs:
-            lines.append([c, 'src', 'exon', str(s + 1), str(e), '.', rng.choice('+-.'), rng.choice('012.'),
-                          'ID=x1;Name=%s' % g.replace(';', '_')])
-            exp.append((c, s, e))
-    elif kind in ('vcf-simple', 'vcf-sites', 'vcf'):
-        lines.append(['##fileformat=VCFv4.2'])
-        if kind == 'vcf':
-            for c in sorted({r[0] for r in regs}):
-                lines.append(['##contig=<ID=%s>' % c])
-        lines.append(['#CHROM', 'POS', 'ID', 'REF', 'ALT', 'QUAL', 'FILTER', 'INFO'])
-        for (c, s, e, g) in regs:
-            lines.append([c, str(s + 1), '.', 'A', 'G', '.', 'PASS', '.'])
-            exp.append((c, s))
-    elif kind == 'picardhs':
-        lines.append(['chrom', 'start', 'end', 'length', 'name', '%gc', 'mean_coverage', 'normalized_coverage'])
-        for (c, s, e, g) in regs:
-            lines.append([c, str(s + 1), str(e), str(e - s), g, '0.5', g6(abs(gen_float(rng))), '1'])
-            exp.append((c, s, e, g))
-        names = ['gene']
-    p = os.path.join(scratch, 'rd%d.%s' % (i, 'vcf' if kind.startswith('vcf') else 'dat'))
-    with open(p, 'w') as fh:
-        for l in lines:
-            fh.write('\t'.join(l) + '\n')
+    p = os.path.join(scratch, 'rd%d.dat' % i)
+    write_lines(p, lines)
     case = {'format': fmt, 'lines': lines}
     try:
-        arr = tabio.read(p, fmt)
-        if kind.startswith('vcf'):
-            got = [(c, int(s)) for c, s in zip(arr.data['chromosome'], arr.data['start'])]
-        elif kind == 'gff':
-            got = [r[:3] for r in array_rows(arr, [], {})]
-        else:
-            got = array_rows(arr, names, {})
+        got = array_rows(tabio.read(p, fmt), names, {})
     except Exception as e:    # noqa
         ck.violation('reading a well-formed %s file raised %s: %s' % (fmt, type(e).__name__, str(e)[:100]), case,
                      code=repr(e)[:200], expected=exp, clause='C08_conventions')
         return
     ck.count(['read', fmt, lines], nontrivial=True, cls='read:%s' % kind)
-    if kind.startswith('vcf'):
-        bad = sorted(got) != sorted(exp)
-        if not bad:
-            for a, b in zip(got, got[1:]):
-                c = nat_cmp(a[0], b[0])
-                if c is not None and (c > 0 or (c == 0 and a[1] > b[1])):
-                    bad = True
-        if bad:
-            ck.violation('%s reader: 0-based starts / order differ from the file' % fmt, case, code=got, expected=sorted(exp),
-                         clause='C08_conventions')
-            return
-        P.add('c08_read', [fmt, lines], '%s reader starts' % fmt, case, sorted(got), lambda m: sorted(tuple(x) for x in m))
-    else:
-        msg = oracle_check(exp, got)
-        if msg:
-            ck.violation('%s reader: %s' % (fmt, msg), case, code=got, expected_rows_in_input_order=exp, clause='C08_conventions')
-            return
-        if kind == 'gff':
-            P.add('c08_read', [fmt, lines], 'gff reader regions', case, got, lambda m: [tuple(x) for x in m])
-        else:
-            P.add('c08_read', [fmt, lines], '%s reader rows' % fmt, case, got, from_mrows)
+    msg = oracle_check(exp, got)
+    if msg:
+        ck.violation('%s reader: %s' % (fmt, msg), case, code=got, expected_rows_in_input_order=exp, clause='C08_conventions')
+        return
+    P.add('c08_read', [fmt, lines], '%s reader rows' % fmt, case, got, from_mrows)
     # auto-detection of foreign files (names of word characters only are claimed)
-    if all(all(ch.isalnum() or ch == '_' for ch in r[0]) for r in regs) and kind != 'picardhs':
-        want = {'bed': 'bed', 'interval': 'interval', 'text': 'text', 'gff': 'gff', 'vcf-simple': 'vcf', 'vcf-sites': 'vcf',
-                'vcf': 'vcf'}[kind]
+    if all(all(ch.isalnum() or ch == '_' for ch in r[0]) for r in regs):
         try:
             sn = tabio.sniff_region_format(p)
         except ValueError:
             sn = Err('unrecognized')
         ck.cls('sniff:foreign-%s' % kind)
-        ambiguous = (kind == 'bed' and ncol == 5)     # a 5-column BED row can be an interval-list row
-        if sn != want and not ambiguous:
-            ck.violation('auto-detection classifies a %s file as %r' % (kind, sn), case, code=sn, expected=want,
+        if sn != kind:
+            ck.violation('auto-detection classifies a %s file as %r' % (kind, sn), case, code=sn, expected=kind,
                          clause='C08_sniff')
             return
         P.add('c08_sniff', [None, lines], 'sniff_region_format on a %s file' % kind, case, sn)
@@ -925,6 +1443,35 @@ def check_labels(ck, P, rng, n):
         P.add('c08_label', t, 'from_label', {'text': t}, code)
 
 
+def check_decimal(ck, P, rng, n):
+    """print_Z / parse_Z against Python's str(int) / int(str) on the strings both define
+    (digits and '-', no blanks, '+' or '_': those are accepted by int() only), and str.rstrip()."""
+    ints = [0, 1, -1, 9, 10, -10, 99, 100, 101, 999, 1000, 2**31 - 1, 2**31, -2**31, 2**63, -2**63 - 1, 10**18, 10**30 + 7,
+            299999999, 300000000]
+    for _ in range(n):
+        k = rng.choice([1, 2, 3, 6, 9, 10, 19, 40])
+        ints.append(rng.randint(-10**k, 10**k))
+    for z in ints:
+        ck.count(['print', z], nontrivial=True, cls='decimal:print')
+        P.add('c08_print_parse', z, 'str(int)', {'int': z}, str(z))
+        P.add('c08_print_parse', str(z), 'int(str(int))', {'text': str(z)}, z)
+    texts = ['', '-', '--5', '5-', '-0', '0', '00', '007', '-007', '12a', 'a', '1-2', '0x10', '1e5', '1.0', '-', '9' * 40]
+    for _ in range(n):
+        texts.append(''.join(rng.choice('0123456789-0123456789a.') for _ in range(rng.randint(0, 12))))
+    for t in texts:
+        try:
+            code = int(t)
+        except ValueError:
+            code = None
+        ck.count(['parse', t], nontrivial=code is not None, cls='decimal:parse')
+        P.add('c08_print_parse', t, 'int(text)', {'text': t}, code)
+    pads = ['', ' ', '  ', '\t', ' \x0b', '\x0c', '\r', '\x1c', '\x1f ', '\x00', 'x', ' x', '.']
+    for _ in range(n):
+        t = rng.choice(['', 'g', 'TP53', 'a b', ' a', '-', '+']) + rng.choice(pads) + rng.choice(pads)
+        ck.count(['rstrip', t], nontrivial=t.rstrip() != t, cls='decimal:rstrip')
+        P.add('c08_rstrip', t, 'str.rstrip()', {'text': t}, t.rstrip())
+
+
 # ----------------------------------------------------------------------------
 # known finding: pandas NA tokens as names / labels
 
@@ -964,30 +1511,50 @@ def load_corpus():
     return json.load(open(p))['tables']
 
 
+def load_corpus_extra(key):
+    p = os.path.join(vlib.VERIF, 'corpus', 'c08.json')
+    if not os.path.exists(p):
+        return []
+    return json.load(open(p)).get(key, [])
+
+
 def run(ck, scratch):
     ck.rule = ('region tables: 1..5 chromosome names (numbers incl. 999/1000/1001, X/Y/M, alt/random/Un/hap contigs, dotted '
                'accessions, leading zeros, with/without chr/Chr/CHR prefix, mixed) x rows with coordinates biased to digit-length '
                'boundaries up to 3e8, duplicate and near-duplicate rows, labels with , . - and numeric-looking labels, 0..3 extra '
                'int/float columns (floats from 5e-324 to 1.8e308), input order unsorted/shuffled/reversed/string-sorted; every table '
                'written and read as tab, bed3, bed4, interval, text (+ read_auto for word-character names), re-written twice; 1..4 SEG '
-               'samples through export_seg + import-seg + tabio seg writer; hand-made BED(3..9 col, track/browser lines)/interval(@ '
-               'header)/text(labels)/GFF/VCF/Picard files; single-line sniffing with mutated lines and extension hints; sorter_chrom '
-               'and from_label/to_label streams. Preconditions (format-inherent): names do not start with track/browser, start with a '
-               'word character, labels non-empty without blanks/tabs; pandas NA tokens are the open finding C08-na-token-name (own '
-               'stream). non-trivial = more than one row / recognised line; distinct by case hash')
+               'samples through export_seg + import-seg + tabio seg writer, and with enumerated chromosome ids through export_seg('
+               'chrom_ids=True) + parse_seg / import-seg -c <inverse map> (+ -p prefix), first sample covering the other samples\' '
+               'chromosomes or not; hand-made BED files of 3..12 columns with browser/track lines, a second track, labels and strands '
+               'ending in blanks, BED files with a bad line (edge stream: ValueError vs parse error), the generic BED writer on 3/4/6/7-'
+               'column frames; interval(@ header)/text(labels) files; GFF files in GFF3 / GTF / quoted style with 0..5 attributes, '
+               'repeated keys, odd attribute strings (quotes, blanks, empty, embedded tags), tag in {default, ID, Parent, '
+               '(gene_name|gene_id), gene_name, (Alias|Name)}, keep_type in {None, "", exon, gene, CDS, tRNA}, repeated spans, chr/no-chr '
+               'mixes; VCF files (vcf via pysam, vcf-simple, vcf-sites) with substitutions, indels, multi-allelic, <DEL>/<DUP>, '
+               '<NON_REF>, no ALT, INFO with/without END; Picard per-target tables with float columns; single-attribute gene extraction, '
+               'single-record END parsing incl. the INFO strings int() rejects, str(int)/int(str)/rstrip streams; single-line sniffing '
+               'with mutated lines and extension hints; sorter_chrom and from_label/to_label streams. Preconditions (format-inherent): '
+               'names do not start with track/browser, start with a word character, labels non-empty without blanks/tabs; pandas NA '
+               'tokens are the open finding C08-na-token-name (own stream). non-trivial = more than one row / recognised line; '
+               'distinct by case hash')
     ck.unproved_remainder = [
         'pandas read_csv / re tokenisation of real bytes into fields and %.6g / strtod float formatting (6-significant-digit equality and '
-        'byte-identical re-writing of float columns are checked on the code only)',
-        'equivalence of the hand-written matchers of Model/Sniff.v with the regexes (no regex semantics in Coq): tied by '
-        'C08_sniff_sources (source strings) and by model-vs-code comparison on mutated first lines',
-        'that pandas lexsort/mergesort computes the stable (key, start, end) sort of Model/Chromsort.v: by correspondence '
-        '(C08_sort proves the model sort is a sorted, stable, idempotent permutation)',
+        'byte-identical re-writing of float columns are checked on the code only); pandas\' comment character inside a GFF line and '
+        'rows with a wrong number of columns are outside the field-level model',
+        'equivalence of the hand-written matchers of Model/Sniff.v and of the GFF gene matcher of Model/Formats.v with the regexes (no '
+        'regex semantics in Coq): tied by C08_sniff_sources / C08_gff_sources (source strings) and by model-vs-code comparison on '
+        'mutated first lines and attribute strings; C08_gff_gene / C08_gff_gene_spec prove what the matcher computes',
+        'that pandas lexsort/mergesort is a stable sort: by correspondence (C08_sort proves the model sort is a sorted, stable, '
+        'idempotent permutation and C08_sort_unique that any sorted arrangement keeping tied rows in input order IS the model\'s)',
         'GenomicArray.sort_columns (column order of the re-written tab file) is compared by column name, not modelled',
-        'tabio.write(..., "seg") with enumerated chromosome ids, GFF attribute -> gene extraction and pre-sort, VCF end computation, '
-        'pysam record.start = POS-1 and the Picard float columns: model-vs-code / oracle comparison only (start conversion is in '
-        'C08_conventions_*)',
-        'digits_val (the decimal value used by C08_natural_order_numeric) is the usual left fold; its agreement with print_Z is not '
-        'stated as a theorem',
+        'int() / pandas integer parsing of non-canonical coordinate text (blanks, "+", "_", non-ASCII digits) is not modelled: parse_Z '
+        'accepts -?[0-9]+ only (C08_decimal_rejects); generators write canonical text',
+        'pysam: record.start = POS-1, record.alts, and whether record.info offers END (pysam 0.24 never does, so vcfio._get_end\'s END '
+        'branch is not reached here) are inputs of the model; the Picard float columns and the GFF score column are opaque tokens; '
+        'write_picard_hs\' coverage normalisation is float arithmetic outside the model',
+        'the end coordinate of VCF records is modelled and compared (C08_vcf_end_*), but the property text fixes only the start shift: '
+        'vcf-simple / vcf-sites give substitutions an empty interval (C08_vcf_simple_snv_empty) -- reported as an observation',
     ]
     if not ck.build_status.get('driver_ok'):
         raise RuntimeError('model driver unavailable')
@@ -999,6 +1566,14 @@ def run(ck, scratch):
     ck.extra['generated_read_offsets'] = offs
     if offs != want:
         ck.tie_break('generated reader offsets differ from the property\'s conventions', {'offsets': offs}, code=offs, model=want)
+    tags = vlib.model_call('c08_gff_default_tags', None)
+    if tags != DEFAULT_GFF_TAGS:
+        ck.tie_break('generated default GFF tags differ from the ones the harness builds its regular expression from',
+                     {'tags': tags}, code=tags, model=DEFAULT_GFF_TAGS)
+    from skgenome.tabio import gff as _gff
+    import inspect
+    if GFF_GENE_TAIL not in inspect.getsource(_gff.read_gff):
+        ck.tie_break('gff.read_gff no longer compiles tag + %r' % GFF_GENE_TAIL, {'tail': GFF_GENE_TAIL}, code='changed', model=GFF_GENE_TAIL)
     # corpus first
     for i, t in enumerate(load_corpus()):
         check_table(ck, P, scratch, t['table'], 'corpus%d' % i, word_only=t.get('word_only', False), corpus=True)
@@ -1014,11 +1589,23 @@ def run(ck, scratch):
         samples, probes = gen_seg_case(ck.rng)
         check_seg(ck, P, scratch, samples, 'seg%d' % i, probes)
         check_seg_raw(ck, P, scratch, ck.rng, i)
-    for i in range(150 if quick else 4000):
+    for i in range(600 if quick else 8000):
         check_readers(ck, P, scratch, ck.rng, i)
+        if i % 1000 == 999:
+            P.flush(ck)
     check_sniff_lines(ck, P, scratch, ck.rng, 600 if quick else 20000)
     check_keys(ck, P, ck.rng, 300 if quick else 10000)
     check_labels(ck, P, ck.rng, 300 if quick else 10000)
+    ck.extra['observations'] = [
+        'vcf-simple / vcf-sites: end = first END=n of INFO, else start + max(0, len(ALT) - len(REF)); a substitution therefore gets '
+        'an empty interval [POS-1, POS-1) (C08_vcf_simple_snv_empty); an INFO column holding CIEND= before END= raises ValueError '
+        '(str.find("END=") hits CIEND=; C08_vcf_end_examples)',
+        'vcf (pysam): with pysam 0.24 "END" in record.info is False even when INFO has END=, so vcfio._get_end never takes the '
+        'END branch: a <DEL> record gets end = start + len("<DEL>") (see pysam_info_contains_END)',
+    ]
+    check_gff_genes(ck, P, ck.rng, 300 if quick else 10000)
+    check_vcf_ends(ck, P, ck.rng, 150 if quick else 5000)
+    check_decimal(ck, P, ck.rng, 150 if quick else 5000)
     P.flush(ck)
 
 
